@@ -180,12 +180,58 @@ theorem upd_same {α : Type} (f : Nat → α) (w : Nat) : upd f w (f w) = f := b
 theorem futileCycle_runs (c : Cfg) (s : State) (w : Nat) (hw : w < c.n) (hp : s.wpc w = .waiting)
     (hst : s.st w = .wait) (ho : s.owner = none) :
     ∃ s1 s2, spur? c s (w+1) = some s1 ∧ step? c s1 (w+1) = some s2 ∧ step? c s2 (w+1) = some s ∧
-      s2.owner = some (w+1) := by
-  refine ⟨{ s with wpc := upd s.wpc w .woken }, { s with owner := some (w+1), wpc := upd s.wpc w .hold }, ?_, ?_, ?_, rfl⟩
+      s2.owner = some (w+1) ∧ s1.cpc = s.cpc ∧ s2.cpc = s.cpc := by
+  refine ⟨{ s with wpc := upd s.wpc w .woken }, { s with owner := some (w+1), wpc := upd s.wpc w .hold }, ?_, ?_, ?_, rfl,
+    rfl, rfl⟩
   · simp [spur?, hw, hp]
   · simp [step?, hw, stepW, upd, ho, upd_upd_self]
   · simp only [step?, hw, if_true, stepW, upd, hst]
     simp only [upd_upd_self]
     rw [← hp, upd_same, ← ho]
+
+/-! ## weak fairness of an infinite execution; the lasso built from a prefix of three steps and the futile cycle -/
+/-- `e` is weakly fair for thread `t`: it is not the case that from some point on `t` is always enabled and never
+    takes a step (◇□enabled → □◇taken) -/
+def Exec.WeakFair {c : Cfg} (e : Exec c) (t : Nat) : Prop :=
+  ∀ N, (∃ i, N ≤ i ∧ e.lab i = (t, false)) ∨ (∃ i, N ≤ i ∧ step? c (e.st i) t = none)
+
+/-- `e` is strongly fair for thread `t`: if `t` is enabled infinitely often it takes infinitely many steps -/
+def Exec.StrongFair {c : Cfg} (e : Exec c) (t : Nat) : Prop :=
+  (∀ N, ∃ i, N ≤ i ∧ (step? c (e.st i) t).isSome = true) → ∀ N, ∃ i, N ≤ i ∧ e.lab i = (t, false)
+
+/-- phase of the lasso: 0,1,2 (prefix) then 3,4,5,3,4,5,… -/
+def lassoPh : Nat → Nat
+  | 0 => 0
+  | i+1 => if lassoPh i = 5 then 3 else lassoPh i + 1
+
+theorem lassoPh_le (i : Nat) : lassoPh i ≤ 5 := by
+  induction i with
+  | zero => simp [lassoPh]
+  | succ i ih => simp only [lassoPh]; split <;> omega
+
+theorem lassoPh_hits5 (N : Nat) : ∃ i, N ≤ i ∧ lassoPh i = 5 := by
+  have h := lassoPh_le N
+  have e1 : ∀ i, lassoPh (i+1) = if lassoPh i = 5 then 3 else lassoPh i + 1 := fun _ => rfl
+  have hc : lassoPh N = 0 ∨ lassoPh N = 1 ∨ lassoPh N = 2 ∨ lassoPh N = 3 ∨ lassoPh N = 4 ∨ lassoPh N = 5 := by omega
+  rcases hc with h0 | h0 | h0 | h0 | h0 | h0
+  · exact ⟨N+5, by omega, by simp [e1, h0]⟩
+  · exact ⟨N+4, by omega, by simp [e1, h0]⟩
+  · exact ⟨N+3, by omega, by simp [e1, h0]⟩
+  · exact ⟨N+2, by omega, by simp [e1, h0]⟩
+  · exact ⟨N+1, by omega, by simp [e1, h0]⟩
+  · exact ⟨N, Nat.le_refl N, h0⟩
+
+/-- An infinite execution from six states and six labels: `S 0 → S 1 → S 2 → S 3 → S 4 → S 5 → S 3 → …` -/
+def lassoExec (c : Cfg) (S : Nat → State) (L : Nat → Nat × Bool) (h0 : S 0 = init c)
+    (hstep : ∀ k, k < 5 → stepL c (S k) (L k) = some (S (k+1))) (hback : stepL c (S 5) (L 5) = some (S 3)) : Exec c where
+  st i := S (lassoPh i)
+  lab i := L (lassoPh i)
+  start := h0
+  next i := by
+    show stepL c (S (lassoPh i)) (L (lassoPh i)) = some (S (if lassoPh i = 5 then 3 else lassoPh i + 1))
+    have := lassoPh_le i
+    by_cases h5 : lassoPh i = 5
+    · rw [if_pos h5, h5]; exact hback
+    · rw [if_neg h5]; exact hstep _ (by omega)
 
 end PsV.Sync
